@@ -1,4 +1,5 @@
 import Gowarc.Driver.FieldsH
+import Gowarc.Driver.BufH
 namespace Gowarc.Driver
 
 def handleLine (line : String) : String :=
@@ -7,6 +8,7 @@ def handleLine (line : String) : String :=
     let out := match kind with
       | "fields" => handleFields args
       | "canon" => handleCanon args
+      | "buf" => handleBuf args
       | _ => "unknown-kind"
     id ++ " " ++ out
   | _ => "? bad-line"
